@@ -64,4 +64,23 @@ def insert (x : Bytes) : List Bytes → List Bytes
   | y :: ys => if less x y then x :: y :: ys else y :: insert x ys
 def sort (l : List Bytes) : List Bytes := l.foldr insert []
 
+/-! ### the order of the definitions of a printed module (asm/translate.go steps 8a–8e: `natsort.Strings` over the names of the type definitions, comdats and
+    named metadata, `sort.Slice` by ID over attribute groups and metadata definitions; ir/module.go prints the five lists in the order stored) -/
+
+def insertId (x : Nat) : List Nat → List Nat
+  | [] => [x]
+  | y :: ys => if x ≤ y then x :: y :: ys else y :: insertId x ys
+def sortIds (l : List Nat) : List Nat := l.foldr insertId []
+
+structure DefLists where
+  types : List Bytes
+  comdats : List Bytes
+  named : List Bytes
+  attrs : List Nat
+  mds : List Nat
+  deriving DecidableEq, Repr
+
+/-- the order in which the printed module lists the definitions written in the order `d` -/
+def printedOrder (d : DefLists) : DefLists := ⟨sort d.types, sort d.comdats, sort d.named, sortIds d.attrs, sortIds d.mds⟩
+
 end Llir.Natsort
